@@ -1017,7 +1017,7 @@ class TransportLayerLogic:
             if self.tx_state == self.TxState.IDLE:
                 self._trigger_error(isotp.errors.UnexpectedFlowControlError('Received a FlowControl message while transmission was Idle. Ignoring'))
             else:
-                if flow_control_frame.flow_status == PDU.FlowStatus.Wait:
+                if flow_control_frame.flow_status == PDU.FlowStatus.Wait and not self.timer_rx_fc.is_timed_out():
                     if self.params.wftmax == 0:
                         self._trigger_error(isotp.errors.UnsupportedWaitFrameError(
                             'Received a FlowControl requesting to wait, but wftmax is set to 0'))
